@@ -18,7 +18,7 @@ use rsdd::builder::decision_nnf::{DecisionNNFBuilder, StandardDecisionNNFBuilder
 use rsdd::builder::sdd::CompressionSddBuilder;
 use rsdd::builder::BottomUpBuilder;
 use rsdd::repr::{BddPtr, Cnf, DDNNFPtr, DTree, SddPtr, VTree, VarLabel, VarOrder, WmcParams};
-use rsdd::util::semirings::{Complex, Polynomial, RealSemiring, Semiring};
+use rsdd::util::semirings::{Complex, FiniteField, Polynomial, RealSemiring, Semiring};
 use serde::{Deserialize, Serialize};
 use std::ffi::{c_char, c_void, CStr, CString};
 
@@ -27,6 +27,10 @@ type CBdd = BddPtr<'static>;
 #[repr(C)]
 #[derive(Clone, Copy)]
 pub struct WeightF64(pub f64, pub f64);
+
+#[repr(C)]
+#[derive(Clone, Copy)]
+pub struct WeightComplex(pub Complex, pub Complex);
 
 #[repr(C)]
 pub struct WeightPoly {
@@ -88,6 +92,9 @@ extern "C" {
     fn wmc_param_f64_set_weight(w: *mut WmcParams<RealSemiring>, var: u64, low: f64, high: f64);
     fn wmc_param_complex_set_weight(w: *mut WmcParams<Complex>, var: u64, low: Complex, high: Complex);
     fn wmc_param_f64_var_weight(w: *mut WmcParams<RealSemiring>, var: u64) -> WeightF64;
+    fn wmc_param_complex_var_weight(w: *mut WmcParams<Complex>, var: u64) -> WeightComplex;
+    fn weight_complex_lo(w: WeightComplex) -> Complex;
+    fn weight_complex_hi(w: WeightComplex) -> Complex;
     fn weight_f64_lo(w: WeightF64) -> f64;
     fn weight_f64_hi(w: WeightF64) -> f64;
     fn new_polynomial(coeffs: *const f64, len: usize) -> *mut Polynomial<RealSemiring>;
@@ -134,6 +141,8 @@ pub enum COp {
     Json(u16),
     Print(u16),
     Scratch(u16, u16),
+    /// the handle returned by bdd_low / bdd_high joins the pool as an operand of later calls
+    Child(u16, bool),
 }
 
 #[derive(Clone, Debug, Serialize, Deserialize)]
@@ -291,12 +300,24 @@ unsafe fn run_case_inner(case: &Case, st: &mut Stats) -> CaseResult {
                     Some((bdd_var(mgr, l, *p), nb.var(nl, *p), Tt::lit(l as usize, *p), "bdd_new_label+bdd_var"))
                 }
             }
+            COp::Child(a, hi) => {
+                let a = at(a);
+                if np[a].is_const() {
+                    None
+                } else {
+                    let (c, nat) = if *hi { (bdd_high(cp[a]), np[a].high()) } else { (bdd_low(cp[a]), np[a].low()) };
+                    st.bump("child_handle_joined_the_pool");
+                    Some((c, nat, bdd_tt(nat), if *hi { "bdd_high" } else { "bdd_low" }))
+                }
+            }
             COp::Eq(a, b) => {
                 let (a, b) = (at(a), at(b));
                 let ce = bdd_eq(mgr, cp[a], cp[b]);
                 let ne = nb.eq(np[a], np[b]);
+                // whether equality coincides with equality of functions is C02's concern
+                st.flag("native_eq_differs_from_function_equality(C02's concern)", ne != (bdd_tt(np[a]) == bdd_tt(np[b])));
                 ensure!(
-                    ce == ne && ce == (tp[a] == tp[b]),
+                    ce == ne,
                     "C18/bdd-eq",
                     "op #{}: bdd_eq(pool {}, pool {}) = {}, native eq = {}, functions equal = {}",
                     i,
@@ -325,16 +346,25 @@ unsafe fn run_case_inner(case: &Case, st: &mut Stats) -> CaseResult {
                 let a = at(a);
                 counts += 1;
                 let c = robdd_model_count(mgr, cp[a]);
-                let want = tp[a].count_n(n);
+                // the native value: smooth over all variables, count with unit weights in the 64-bit field
+                // (whether that is the number of models is C08's concern)
+                let want = {
+                    let mut ones = WmcParams::<FiniteField<{ rsdd::constants::primes::U64_LARGEST }>>::default();
+                    for v in 0..nb.num_vars() {
+                        ones.set_weight(VarLabel::new_usize(v), FiniteField::new(1), FiniteField::new(1));
+                    }
+                    nb.smooth(np[a], nb.num_vars()).unsmoothed_wmc(&ones).value() as u64
+                };
+                st.flag("native_model_count_differs_from_oracle(C08's concern)", want != tp[a].count_n(n));
                 ensure!(
                     c == want,
                     "C18/model-count",
-                    "op #{}: robdd_model_count = {} but the function {:?} has {} models over the manager's {} variables",
+                    "op #{}: robdd_model_count = {} but the native smooth-and-count over the manager's {} variables gives {} (function {:?})",
                     i,
                     c,
-                    tp[a],
+                    n,
                     want,
-                    n
+                    tp[a]
                 );
                 None
             }
@@ -343,7 +373,14 @@ unsafe fn run_case_inner(case: &Case, st: &mut Stats) -> CaseResult {
                 counts += 1;
                 let w = new_wmc_params_f64();
                 let mut nat = WmcParams::<RealSemiring>::default();
+                // normalised pairs (k/8, 1-k/8) or, a third of the time, arbitrary small pairs: the wrapper must
+                // return the native (unsmoothed) count either way
+                let unnormalised = sel(s, 1, 2) % 3 == 0;
+                st.flag("wmc_real.unnormalised_weights", unnormalised);
                 let wf = |v: usize, b: bool| -> f64 {
+                    if unnormalised {
+                        return [0.0, 0.5, 1.0, 2.0, 3.0][(sel(s, v, if b { 1 } else { 0 }) % 5) as usize];
+                    }
                     let k = (sel(s, v, 0) % 9) as f64 / 8.0;
                     if b {
                         k
@@ -371,8 +408,9 @@ unsafe fn run_case_inner(case: &Case, st: &mut Stats) -> CaseResult {
                 let fops = Ops::<f64> { zero: 0.0, one: 1.0, add: &|a, b| a + b, mul: &|a, b| a * b };
                 let brute = brute_force(tp[a], &(0..n).collect::<Vec<_>>(), &wf, &fops);
                 free_wmc_params_f64(w);
+                st.flag("native_wmc_differs_from_brute_force(C07's concern)", !unnormalised && nv != brute);
                 ensure!(
-                    c == nv && c == brute,
+                    c == nv,
                     "C18/wmc-real",
                     "op #{}: bdd_wmc = {}, native unsmoothed_wmc = {}, brute force = {}",
                     i,
@@ -390,9 +428,26 @@ unsafe fn run_case_inner(case: &Case, st: &mut Stats) -> CaseResult {
                 for v in 0..n {
                     let re = (sel(s, v, 0) % 9) as f64 / 8.0;
                     let im = (sel(s, v, 1) % 5) as f64 - 2.0;
-                    let (lo, hi) = (Complex { re: 1.0 - re, im: -im }, Complex { re, im });
+                    let (lo, hi) = if sel(s, 0, 2) % 3 == 0 {
+                        (Complex { re: (sel(s, v, 2) % 4) as f64, im: 1.0 - im }, Complex { re, im })
+                    } else {
+                        (Complex { re: 1.0 - re, im: -im }, Complex { re, im })
+                    };
                     wmc_param_complex_set_weight(w, v as u64, lo, hi);
                     nat.set_weight(VarLabel::new_usize(v), lo, hi);
+                    // the pair comes back by value as a struct of two complex numbers
+                    let back = wmc_param_complex_var_weight(w, v as u64);
+                    let (bl, bh) = (weight_complex_lo(back), weight_complex_hi(back));
+                    ensure!(
+                        bl.re == lo.re && bl.im == lo.im && bh.re == hi.re && bh.im == hi.im && back.0.re == lo.re && back.1.im == hi.im,
+                        "C18/wmc-param-var-weight",
+                        "wmc_param_complex_var_weight({}) reads back ({:?}, {:?}), set ({:?}, {:?})",
+                        v,
+                        bl,
+                        bh,
+                        lo,
+                        hi
+                    );
                 }
                 let c = bdd_wmc_complex(cp[a], w);
                 let nv = np[a].unsmoothed_wmc(&nat);
@@ -415,7 +470,48 @@ unsafe fn run_case_inner(case: &Case, st: &mut Stats) -> CaseResult {
                 // one variable (chosen by the selector) gets a long polynomial, up to the 32-coefficient limit
                 let long_var = (sel(s, 0, 2) as usize) % n;
                 let long_len = [2usize, 5, 17, 31, 32, 32][(sel(s, 1, 2) as usize) % 6];
+                // another variable gets low and high polynomials of independent lengths, including 0, 1 and more
+                // than the limit (documented: an empty input is the zero polynomial, longer inputs are truncated)
+                let odd_var = (long_var + 1 + (sel(s, 2, 2) as usize) % n.max(1)) % n;
+                let odd_lens = [0usize, 1, 2, 17, 32, 40];
+                let (odd_lo, odd_hi) = (odd_lens[(sel(s, 3, 2) as usize) % 6], odd_lens[(sel(s, 4, 2) as usize) % 6]);
                 for v in 0..n {
+                    if v == odd_var && v != long_var {
+                        let lo: Vec<f64> = (0..odd_lo).map(|j| ((j + sel(s, v, 0) as usize) % 3) as f64).collect();
+                        let hi: Vec<f64> = (0..odd_hi).map(|j| ((j * 2 + sel(s, v, 1) as usize) % 4) as f64 - 1.0).collect();
+                        wmc_param_poly_set_weight(w, v as u64, lo.as_ptr(), lo.len(), hi.as_ptr(), hi.len());
+                        let mk = |c: &Vec<f64>| {
+                            let mut p = Polynomial::<RealSemiring>::zero();
+                            if !c.is_empty() {
+                                for (i, x) in c.iter().take(32).enumerate() {
+                                    p.coefficients[i] = RealSemiring(*x);
+                                }
+                                p.len = c.len().min(32);
+                            }
+                            p
+                        };
+                        let (nlo, nhi) = (mk(&lo), mk(&hi));
+                        nat.set_weight(VarLabel::new_usize(v), nlo, nhi);
+                        let back = wmc_param_poly_var_weight(w, v as u64);
+                        let mut bl = [0f64; 40];
+                        let mut bh = [0f64; 40];
+                        let kl = polynomial_get_coeffs(back.low, bl.as_mut_ptr(), 40);
+                        let kh = polynomial_get_coeffs(back.high, bh.as_mut_ptr(), 40);
+                        ensure!(
+                            kl == nlo.len && kh == nhi.len && (0..kl).all(|j| bl[j] == nlo.coefficients[j].0) && (0..kh).all(|j| bh[j] == nhi.coefficients[j].0),
+                            "C18/poly-var-weight",
+                            "wmc_param_poly_set_weight({}, low of {} coefficients, high of {}) reads back as low {:?} / high {:?}",
+                            v,
+                            odd_lo,
+                            odd_hi,
+                            &bl[..kl.min(40)],
+                            &bh[..kh.min(40)]
+                        );
+                        destroy_polynomial(back.low);
+                        destroy_polynomial(back.high);
+                        st.bump("poly_weight_with_independent_lengths");
+                        continue;
+                    }
                     let len = if v == long_var { long_len } else { 2 };
                     let mut hi = vec![0f64; len];
                     hi[0] = (sel(s, v, 0) % 3) as f64;
@@ -474,6 +570,21 @@ unsafe fn run_case_inner(case: &Case, st: &mut Stats) -> CaseResult {
                     nv.coefficients.iter().map(|c| c.0).collect::<Vec<_>>(),
                     nv.len
                 );
+                // a buffer shorter than the polynomial: exactly max_len coefficients are written, nothing beyond
+                if k >= 2 {
+                    let short = k / 2;
+                    let mut buf3 = [-777f64; 40];
+                    let k3 = polynomial_get_coeffs(r, buf3.as_mut_ptr(), short);
+                    ensure!(
+                        k3 == short && (0..short).all(|j| buf3[j] == buf[j]) && buf3[short..].iter().all(|x| *x == -777.0),
+                        "C18/polynomial-get-coeffs",
+                        "polynomial_get_coeffs with max_len {} on a polynomial of {} coefficients returned {} and wrote {:?}",
+                        short,
+                        k,
+                        k3,
+                        &buf3[..k.min(40)]
+                    );
+                }
                 // new_polynomial round trip, including inputs longer than the 32-coefficient limit (documented: truncated)
                 for len in [0usize, 1, k.max(1), 31, 32, 40] {
                     let src: Vec<f64> = (0..len).map(|j| 1.0 + ((j * 7 + sel(s, j, 0) as usize) % 5) as f64).collect();
@@ -522,7 +633,16 @@ unsafe fn run_case_inner(case: &Case, st: &mut Stats) -> CaseResult {
                 let a = at(a);
                 if !np[a].is_const() {
                     let v = *val as usize + 1;
-                    ensure!(bdd_scratch(cp[a], 424242) == 424242, "C18/scratch", "op #{}: scratch not empty before use", i);
+                    // the C view of "no scratch" must agree with the native one (leftovers themselves are C10's concern)
+                    let c_empty = bdd_scratch(cp[a], 424242) == 424242;
+                    let n_empty = np[a].is_scratch_cleared();
+                    st.flag("scratch_not_empty_before_use(C10's concern)", !n_empty);
+                    ensure!(
+                        c_empty == n_empty || !n_empty,
+                        "C18/scratch",
+                        "op #{}: native node has no scratch but bdd_scratch does not return the default",
+                        i
+                    );
                     bdd_set_scratch(cp[a], v);
                     let got = bdd_scratch(cp[a], 424242);
                     bdd_clear_scratch(cp[a]);
@@ -549,12 +669,12 @@ unsafe fn run_case_inner(case: &Case, st: &mut Stats) -> CaseResult {
                 })?;
                 match bdd_json_tt(&v) {
                     Ok((jt, _)) => ensure!(
-                        jt == tp[a],
+                        jt == bdd_tt(np[a]),
                         "C18/json-denotes-other-function",
-                        "op #{}: bdd_to_json denotes {:?}, expected {:?}: {}",
+                        "op #{}: bdd_to_json denotes {:?}, the native diagram {:?}: {}",
                         i,
                         jt,
-                        tp[a],
+                        bdd_tt(np[a]),
                         text
                     ),
                     Err(e) => return fail("C18/json-unreadable", format!("{} in {}", e, text)),
@@ -565,10 +685,14 @@ unsafe fn run_case_inner(case: &Case, st: &mut Stats) -> CaseResult {
         if let Some((c, nat, t, what)) = produced {
             let ct = c_tt(c, 0)?;
             let nt = bdd_tt(nat);
+            // whether the native operation is right is C01's concern: the wrapper must agree with it
+            if nt != t {
+                st.bump("native_result_differs_from_oracle(C01's concern)");
+            }
             ensure!(
-                ct == t && nt == t,
+                ct == nt,
                 format!("C18/wrong-function:{}", what),
-                "op #{} {:?}: read through the C accessors the result denotes {:?}, the native result {:?}, the oracle {:?}",
+                "op #{} {:?}: read through the C accessors the result denotes {:?}, the native result {:?} (oracle {:?})",
                 i,
                 op,
                 ct,
@@ -653,8 +777,26 @@ unsafe fn run_case_inner(case: &Case, st: &mut Stats) -> CaseResult {
         let m2 = robdd_builder_all_table(var_order_linear(nn) as *mut VarOrder);
         let r = robdd_builder_compile_cnf(m2, dcnf as *mut Cnf);
         let ct = c_tt(r, 0)?;
-        ensure!(ct == expect, "C18/compile-cnf", "robdd_builder_compile_cnf denotes {:?}, the CNF {:?}", ct, expect);
-        ensure!(robdd_model_count(m2, r) == expect.count_n(nn), "C18/model-count", "model count of the compiled CNF: {} vs {}", robdd_model_count(m2, r), expect.count_n(nn));
+        // native counterparts (whether they denote the CNF is C05's concern; recorded only)
+        let nm2 = RobddBuilder::<AllIteTable<BddPtr>>::new(VarOrder::linear_order(nn));
+        let nr = nm2.compile_cnf(&ncnf);
+        st.flag("native_compile_differs_from_oracle(C05's concern)", bdd_tt(nr) != expect);
+        ensure!(
+            ct == bdd_tt(nr) && bdd_iso(*r, nr),
+            "C18/compile-cnf",
+            "robdd_builder_compile_cnf denotes {:?}, the native compile_cnf {:?} (the CNF {:?})",
+            ct,
+            bdd_tt(nr),
+            expect
+        );
+        let nmc = {
+            let mut ones = WmcParams::<FiniteField<{ rsdd::constants::primes::U64_LARGEST }>>::default();
+            for v in 0..nm2.num_vars() {
+                ones.set_weight(VarLabel::new_usize(v), FiniteField::new(1), FiniteField::new(1));
+            }
+            nm2.smooth(nr, nm2.num_vars()).unsmoothed_wmc(&ones).value() as u64
+        };
+        ensure!(robdd_model_count(m2, r) == nmc, "C18/model-count", "model count of the compiled CNF: {} vs native {}", robdd_model_count(m2, r), nmc);
         free_bdd_manager(m2);
         // sdd
         let mut vt = case.vt.clone();
@@ -663,9 +805,16 @@ unsafe fn run_case_inner(case: &Case, st: &mut Stats) -> CaseResult {
         vt.offset = 0;
         let sb = sdd_builder_new(Box::into_raw(Box::new(vt.to_vtree())));
         let sr = sdd_builder_compile_cnf(sb, ccnf);
-        ensure!(sdd_tt(*sr) == expect, "C18/sdd-compile-cnf", "sdd_builder_compile_cnf denotes {:?}, the CNF {:?}", sdd_tt(*sr), expect);
         let nsb = CompressionSddBuilder::new(vt.to_vtree());
         let nsr = nsb.compile_cnf(&ncnf);
+        ensure!(
+            sdd_tt(*sr) == sdd_tt(nsr) && sdd_iso(*sr, nsr),
+            "C18/sdd-compile-cnf",
+            "sdd_builder_compile_cnf denotes {:?}, the native compile_cnf {:?} (the CNF {:?})",
+            sdd_tt(*sr),
+            sdd_tt(nsr),
+            expect
+        );
         let w = new_wmc_params_f64();
         let mut nat = WmcParams::<RealSemiring>::default();
         for v in 0..nn {
@@ -707,7 +856,7 @@ fn selv() -> impl Strategy<Value = Vec<u8>> {
 impl SubCheckT for Abi {
     type Case = Case;
     const NAME: &'static str = "c_api";
-    const RULE: &'static str = "histories of <=40 C-API calls on one manager (mk_bdd_manager_default_order or robdd_builder_all_table over var_order_new / var_order_linear): bdd_var, bdd_true/false, bdd_negate/and/or/ite/compose, bdd_new_var, bdd_new_label, interleaved with bdd_eq, bdd_count_nodes, robdd_model_count, bdd_wmc / _complex / _poly (weights set and read back through the wmc_param_* and polynomial_* calls, one polynomial weight of up to 32 coefficients), bdd_to_json, print_bdd, bdd_num_recursive_calls, bdd_scratch/set_scratch/clear_scratch, in lock step with a native RobddBuilder: the truth table read through bdd_is_true/false/topvar/low/high equals the native and the oracle one, bdd_eq = native eq = function equality, topvar/low/high and whole results are isomorphic to the native ones, counts equal the native values exactly (and brute force for normalised real weights), model count = number of models over the manager's current variables; then the one-shot wrappers cnf_new/literal_new, cnf_from_dimacs, cnf_min_fill_order, dtree_from_cnf, vtree_from_dtree, robdd_builder_compile_cnf, sdd_builder_new/compile_cnf/sdd_wmc, ddnnf_builder_new/compile_cnf_topdown against their native counterparts. Non-trivial: >=1 binary/ternary op and >=1 count query";
+    const RULE: &'static str = "histories of <=40 C-API calls on one manager (mk_bdd_manager_default_order or robdd_builder_all_table over var_order_new / var_order_linear): bdd_var, bdd_true/false, bdd_negate/and/or/ite/compose, bdd_new_var, bdd_new_label, interleaved with bdd_eq, bdd_count_nodes, robdd_model_count, bdd_wmc / _complex / _poly (weights — normalised or not — set and read back through the wmc_param_* / weight_* / polynomial_* calls, one polynomial weight of up to 32 coefficients, one with independent low/high lengths 0..40, short read-back buffers), handles from bdd_low / bdd_high used as operands, bdd_to_json, print_bdd, bdd_num_recursive_calls, bdd_scratch/set_scratch/clear_scratch, in lock step with a native RobddBuilder: the truth table read through bdd_is_true/false/topvar/low/high equals the one read off the native result, bdd_eq = native eq, topvar/low/high and whole results are isomorphic to the native ones, counts equal the native values exactly, model count = native smooth-and-count over the manager's current variables (differences between native results and the oracle are recorded only: they are other properties' concern); then the one-shot wrappers cnf_new/literal_new, cnf_from_dimacs, cnf_min_fill_order, dtree_from_cnf, vtree_from_dtree, robdd_builder_compile_cnf, sdd_builder_new/compile_cnf/sdd_wmc, ddnnf_builder_new/compile_cnf_topdown against their native counterparts. Non-trivial: >=1 binary/ternary op and >=1 count query";
     fn cases(tier: Tier) -> u32 {
         tier.pick(5000, 60_000)
     }
@@ -732,6 +881,7 @@ impl SubCheckT for Abi {
             1 => i().prop_map(COp::Json),
             1 => i().prop_map(COp::Print),
             1 => (i(), any::<u16>()).prop_map(|(a, v)| COp::Scratch(a, v)),
+            2 => (i(), any::<bool>()).prop_map(|(a, hi)| COp::Child(a, hi)),
         ];
         (
             1u8..=6,
